@@ -350,7 +350,11 @@ def check_dict(ctx, model, style, loaded, obj, seed):
         classes = [t.name for t in f.types if t.kind == "class"]
         return f.xml == "Elements" or len(classes) > 1 or any(n in subclassed for n in classes)
 
-    def walk(d, o, located=False):
+    def walk(d, o, located=False, under=False):
+        # under: some ancestor is located by its keys; the decoder tries the candidate classes with
+        # fail_on_converter_warnings=True, so an unconvertible value anywhere below such an object rejects the document
+        # even in lenient mode (open known finding C10/unconvertible-value-below-key-located-object, probe below)
+        under = under or located
         if isinstance(d, dict) and type(o).__name__ not in ("AnyElement", "DerivedElement", "dict") and hasattr(o, "__dataclass_fields__"):
             if not located:
                 nodes.append(d)
@@ -365,11 +369,11 @@ def check_dict(ctx, model, style, loaded, obj, seed):
                     dv = next(iter(dv.values()), None)
                 if isinstance(v, (list, tuple)) and isinstance(dv, (list, tuple)):
                     for x, y in zip(dv, v):
-                        walk(x, y, located_by_keys(f))
+                        walk(x, y, located_by_keys(f), under)
                 else:
-                    if not located and not f.wrapper and not f.tokens and key in d and isinstance(dv, (int, float, str, bool)) and f.xml in ("Element", "Attribute") and corruptible(model, [(t.kind, t.name) for t in f.types]):
+                    if not under and not f.wrapper and not f.tokens and key in d and isinstance(dv, (int, float, str, bool)) and f.xml in ("Element", "Attribute") and corruptible(model, [(t.kind, t.name) for t in f.types]):
                         leaves.append((d, key, f))
-                    walk(dv, v, located_by_keys(f))
+                    walk(dv, v, located_by_keys(f), under)
 
     walk(enc, obj)
     for node in nodes:
@@ -431,6 +435,32 @@ def check_dict(ctx, model, style, loaded, obj, seed):
                         ctx.violation("bad-value-dict/not-kept-as-given", f"diffs={[(p, repr(a)[:60], repr(b)[:60]) for p, a, b in diffs[:4]]}\n{tag}\n{w['faulted'][:800]}", w)
 
 
+def probe_union_field_bad_value():
+    """Known finding: DictDecoder.bind_best_dataclass scores the candidate classes of a union-typed field with
+    fail_on_converter_warnings=True; a value that cannot be converted anywhere below such an object makes every
+    candidate fail and the document is rejected although conversion warnings are configured not to fail."""
+    from xsdata.exceptions import ParserError
+    from xsdata.formats.dataclass.context import XmlContext
+    from xsdata.formats.dataclass.parsers import DictDecoder
+    from xsdata.formats.dataclass.parsers.config import ParserConfig
+
+    from vf.props.c10_models import Root
+
+    cfg = ParserConfig(fail_on_converter_warnings=False)
+
+    def run(doc):
+        with warnings.catch_warnings(record=True) as rec:
+            warnings.simplefilter("always")
+            try:
+                return "ok", DictDecoder(config=cfg, context=XmlContext()).decode(doc, Root), len(rec)
+            except ParserError as e:
+                return "ParserError", e, len(rec)
+
+    bad = run({"u": {"x": {"n": "zz-bad"}, "a": "s"}})
+    good = run({"p": {"x": {"n": "zz-bad"}, "a": "s"}})
+    return bad[0] == "ParserError" and good[0] == "ok" and good[2] >= 1
+
+
 def replay(witness, ctx):
     model, loaded, obj = bc.from_witness(witness)
     try:
@@ -444,6 +474,13 @@ def replay(witness, ctx):
 
 def run_shard(ctx):
     rng = ctx.rng
+    if ctx.shard == 0:
+        ctx.evals()
+        try:
+            if probe_union_field_bad_value():
+                ctx.known_finding("C10/unconvertible-value-below-key-located-object")
+        except Exception as e:  # noqa: BLE001
+            ctx.inconc(f"probe failed to run: {type(e).__name__}: {e}")
     n_models = ctx.per_shard(ctx.pick(260, 6000))
     min_d = MIN_DISTINCT[ctx.tier] // ctx.nshards + 1
     k = 0
